@@ -391,6 +391,11 @@ def run_query(q, tier, workroot, kf_open, keep=False):
         if results is None:
             res.update(verdict="error", detail=("; ".join(errors) + err[-1500:] + out[-1500:])[-3000:])
             return res
+        odd = [r for r in results if r.get("status") not in ("SUCCESS", "FAILURE")]
+        if odd or errors:
+            res.update(verdict="error", detail=("solver/engine error: " + "; ".join(errors)[:600] + " statuses=" +
+                                                 str(sorted({r.get("status") for r in odd})))[:1500])
+            return res
         wit_ok, wit_bad, unwind_fail, fails, n_ok = classify(results)
         res["n_properties"] = len(results)
         res["n_success"] = n_ok
